@@ -515,7 +515,6 @@ func main() {
 		"each call runs on a fresh module instance whose memory holds a fixed template; a changed byte whose new value equals the template byte is invisible to the diff",
 		"default ModuleConfig (stdin EOF, fake clocks/sleep, deterministic random source) plus args, one env var and one writable directory mount; no sockets are pre-opened, so sock_* reach only their descriptor checks",
 		"host allocation is the /gc/heap/allocs:bytes delta around the call in a single-goroutine worker; allocations outside the Go heap are covered only by the 6 GiB address-space limit",
-		"what fd_renumber(fd, fd) leaves behind is judged by C16, not here",
 	})
 }
 
